@@ -10,9 +10,10 @@ BUDGET = {"quick": 50, "thorough": 900}
 QUICK_CASES = 2500  # generator items in the quick tier (fixed amount of work; BUDGET is then only a safety cap)
 FLOOR = {"quick": 800, "thorough": 800}  # conclusive cases below which a run is inconclusive (the thorough tier is time-budgeted: same floor)
 TIMEOUT = 90
-REQUIRED_OBS = ["histories", "steps", "reads_checked", "writes_checked", "exceptions_agreed", "snapshots_rechecked", "external_changes", "attribute_preservation_checks", "priority_checks"]
+REQUIRED_OBS = ["histories", "steps", "reads_checked", "writes_checked", "exceptions_agreed", "snapshots_rechecked", "external_changes", "attribute_preservation_checks", "priority_checks", "virtual_field_reads", "identical_rewrites"]
 RULE = (
-    "generated scripts with one function per step (the syntax under test is literal source): reads d.e / d.e.attr / virtual attributes / "
+    "generated scripts with one function per step (the syntax under test is literal source): reads d.e / d.e.attr / virtual attributes (last_changed / last_updated / last_reported compared with Home Assistant's own State object, "
+    "before and after a re-write with identical value and attributes by the script or from outside) / "
     "state.get; assignments d.e = v and d.e.attr = v; state.set with every argument combination (value, omitted value, new_attributes, keyword "
     "attributes); state.setattr; del d.e / del d.e.attr / state.delete; state.exist, state.names, state.getattr; values str/int/float/bool/"
     "None/list/dict; captured snapshots re-reported after every step; interleaved external hass.states changes; 10-40 steps over 3 entities. "
@@ -103,6 +104,10 @@ def generate(tier, seed, gated=frozenset()):
                     attrs["entity_id"] = ["light.a", "light.b"]  # like HA group entities: the virtual field still wins on reads
                 st = {"op": "external", "ent": ent, "remove": rng.random() < 0.3, "v": gen_value(rng, True), "attrs": attrs}
             steps.append(st)
+            if rng.random() < 0.06:
+                # the virtual time fields around a re-write with identical value and attributes (Home Assistant then only
+                # moves last_reported, in place on the same State object)
+                steps += [{"op": "read_virt", "ent": ent}, {"op": "rewrite_same", "ent": ent, "by": rng.choice(["external", "script"])}, {"op": "read_virt", "ent": ent}]
         init = {e: {"s": str(gen_value(rng, True)), "a": {a: gen_value(rng) for a in rng.sample(ATTRS, rng.randint(0, 3))}} for e in ENTS if rng.random() < 0.7}
         for legacy in (False, True):
             yield {"kind": "history", "steps": steps, "init": init, "legacy": legacy, "n": i}
@@ -147,6 +152,10 @@ def render(case):
             lines.append("    return sorted(state.names('pyscript'))")
         elif op == "getattr":
             lines.append(f"    return state.getattr({st['ent']!r})")
+        elif op == "read_virt":
+            lines.append(f"    return [str({st['ent']}.last_changed), str({st['ent']}.last_updated), str({st['ent']}.last_reported), str(state.get('{st['ent']}.last_reported'))]")
+        elif op == "rewrite_same" and st["by"] == "script":
+            lines.append(f"    state.set({st['ent']!r}, str({st['ent']}))")
         elif op == "snap":
             lines.append(f"    SNAPS.append({st['ent']})")
         elif op == "assign_snap":
@@ -277,6 +286,8 @@ def expected_result(st, model):
         return ("exc", "NameError") if e is None else ("ok", None)
     if op == "assign_snap":
         return ("skip", None)
+    if op == "read_virt" or (op == "rewrite_same" and st["by"] == "script"):
+        return ("exc", "NameError") if model.get(st["ent"]) is None else ("ok", None)
     return ("ok", None)
 
 
@@ -385,6 +396,13 @@ def run_case(case):
                     model[st["ent"]] = {"s": str(st["v"]), "a": dict(st["attrs"])}
                 await w.settle()
                 continue
+            if st["op"] == "rewrite_same" and st["by"] == "external":
+                cur = w.hass.states.get(st["ent"])
+                if cur is not None:
+                    w.hass.states.async_set(st["ent"], cur.state, dict(cur.attributes))
+                    obs["identical_rewrites"] = obs.get("identical_rewrites", 0) + 1
+                await w.settle()
+                continue
             before = {k: (None if v is None else {"s": v["s"], "a": dict(v["a"])}) for k, v in model.items()}
             kind, val = expected_result(st, model)
             start = len(w.rec)
@@ -414,6 +432,13 @@ def run_case(case):
                 if not r["ok"]:
                     viol.append({"mech": "unexpected_exception", "msg": f"{label}: raised {r['exc']}, expected {val!r}; entity before: {before.get(st.get('ent'))}"})
                     return
+                if st["op"] == "read_virt":
+                    cur = w.hass.states.get(st["ent"])
+                    want_v = [str(cur.last_changed), str(cur.last_updated), str(cur.last_reported), str(cur.last_reported)]
+                    obs["virtual_field_reads"] = obs.get("virtual_field_reads", 0) + 1
+                    if list(r["r"]) != want_v:
+                        viol.append({"mech": "stale_virtual_time_field", "msg": f"{label}: last_changed/last_updated/last_reported read as {r['r']}, Home Assistant has {want_v}"})
+                        return
                 if st["op"] in ("read", "read_attr", "get", "exist", "names", "getattr"):
                     obs["reads_checked"] += 1
                     if norm(r["r"]) != norm(val):
